@@ -267,6 +267,14 @@ func init() {
 					}
 				}
 			}
+			if failedBefore {
+				// a failed Invoke built a prefix of its arguments that depends
+				// on the order of the fields: a function that ran in one
+				// encoding only may run later, after further registrations
+				// (a decorator, a nearer provider), and see other values
+				st.Count("wiring_comparison_skipped_after_failed_invoke", 1)
+				return nil
+			}
 			wa, wb := wiringByFn(ta, fa), wiringByFn(tb, fb)
 			var ids []int
 			for id := range wa {
